@@ -1,5 +1,6 @@
 """C17 — form and query decoding returns the submitted fields."""
 import codec_common as K
+import codec_random as R
 
 
 def char_class(pairs):
@@ -36,4 +37,4 @@ def run(tier, replay):
                        "Gen_Codec(c17): names and values over 28 atoms (letters, digits, hex letters, space, % & = + ? # / ; : ~ quotes, %2 %25 %3A %zz, non-ASCII, astral) and their "
                        "two-atom concatenations, one and two pairs, maps of 0 / 3 / 20 pairs; each map goes through URL::build_query -> parse_query, FormUrlEncoded::generate -> parse, "
                        "and the two echo endpoints through Server::process; decoded pairs compared as sets",
-                       ["echo bodies are split mechanically at CRLF and the first ' is '"])
+                       ["echo bodies are split mechanically at CRLF and the first ' is '"], extra_cases=R.c17)
